@@ -361,12 +361,19 @@ func run(c *h.Check) {
 	for _, sc := range searches(c.Thorough()) {
 		search(c, sc)
 	}
+	sizeSweep(c)
 }
 
 func replay(c *h.Check, rf *h.ReplayFile) []vrt.Violation {
 	var hist []Op
 	if err := json.Unmarshal(rf.Ops, &hist); err != nil {
 		vrt.MachineryFault("replay: %v", err)
+	}
+	if len(hist) == 0 { // the size sweep (it has no history)
+		if msg, _ := sizeRun(); msg != "" {
+			return []vrt.Violation{{Kind: "many-registrations", Sig: rf.Sig, Detail: msg}}
+		}
+		return nil
 	}
 	c2 := &h.Check{Prop: "C01", NWorkers: 1}
 	compare(c2, "replay", hist)
